@@ -215,6 +215,21 @@ fn lit_strategy() -> BoxedStrategy<Lit> {
                     d.insert(pos, l);
                 }
             }
+            // a prefixed literal whose digits start with "0" and a base letter again (0b0b1, 0x0x1,
+            // 0o0x7: one token for the lexer, an invalid digit for the base; stripping repeated
+            // prefixes would accept it), or a hex literal with a letter beyond f
+            if bad == 2 && base != 10 {
+                let own = match base { 2 => 'b', 8 => 'o', _ => 'x' };
+                let letter = [own, own, 'b', 'o', 'x', 'g', 'z'][badpos as usize % 7];
+                // 'b' is a valid hex digit: keep the literal invalid
+                let letter = if base == 16 && letter == 'b' { 'x' } else { letter };
+                let mut t = vec!['0', letter];
+                if badpos % 3 == 0 {
+                    t.extend(['0', letter]);
+                }
+                t.extend(d.iter().copied());
+                d = t;
+            }
             // a decimal literal that turns into a prefixed one if separators are dropped before the
             // prefix is looked at: "0", one to three '_', a base letter, digits valid in that base
             // and small enough to fit (to the lexer and to run-time parsing this is a decimal
@@ -429,7 +444,7 @@ fn main() {
     let t0 = Instant::now();
     let spec = PropSpec {
         id: "C19",
-        rule_text: "generated programs: literals = base {decimal, 0x, 0o, 0b} x digit strings up to 300 digits (leading zeros, mixed-case hex, '_' anywhere after the first digit, optionally one invalid letter, or the shape 0_<b|o|x><digits valid in that base> that only a decimal reading rejects) x optional '_' x suffix {U,B}<bits>, bits biased to {0,1,2,7,8,63,64,65,127,128,129,256,4096} and 0..=300, values from {0,1,2^bits-1,2^bits,2^bits+1,2^(bits-1), random below 2^bits, one bit too long, too large by exactly one digit, too large by two or more limbs with a zero limb directly above the width and a low part that fits, small values in wide types}; each literal at nesting depth 0..4 (parens, blocks, arrays, tuples, calls, closures, const items), inside one whole-program uint!{} or per-literal uint!() / uint!{} / uint![] / forwarded through macro_rules expr, literal and tt fragments. A reference literal model classifies VALID(value) / REJECT. Positive programs: run-time comparison of the constant with the model's limbs and with from_str_radix of the same digits at the exact suffix width and type (Uint / Bits). Negative programs: every REJECT literal must carry a compile error; a line without one is recompiled alone and is a violation iff it builds. Pass-through programs: token soups of non-matching literals (suffixed ints, hex ending in B<digits>, floats, strings, chars, byte strings, identifiers U256/B8) nested in groups, metamorphic oracle uint!{E} == E in value (Debug) and type. Non-trivial: literal wider than one limb, or value in {2^bits-1, 2^bits, 2^bits+1}, or containing '_' / leading zeros, or rejected by exactly one digit; distinct by literal text.",
+        rule_text: "generated programs: literals = base {decimal, 0x, 0o, 0b} x digit strings up to 300 digits (leading zeros, mixed-case hex, '_' anywhere after the first digit, optionally one invalid letter, the shape 0_<b|o|x><digits valid in that base> that only a decimal reading rejects, or a prefixed literal whose digits repeat a base prefix such as 0b0b1 / 0x0x1) x optional '_' x suffix {U,B}<bits>, bits biased to {0,1,2,7,8,63,64,65,127,128,129,256,4096} and 0..=300, values from {0,1,2^bits-1,2^bits,2^bits+1,2^(bits-1), random below 2^bits, one bit too long, too large by exactly one digit, too large by two or more limbs with a zero limb directly above the width and a low part that fits, small values in wide types}; each literal at nesting depth 0..4 (parens, blocks, arrays, tuples, calls, closures, const items), inside one whole-program uint!{} or per-literal uint!() / uint!{} / uint![] / forwarded through macro_rules expr, literal and tt fragments. A reference literal model classifies VALID(value) / REJECT. Positive programs: run-time comparison of the constant with the model's limbs and with from_str_radix of the same digits at the exact suffix width and type (Uint / Bits). Negative programs: every REJECT literal must carry a compile error; a line without one is recompiled alone and is a violation iff it builds. Pass-through programs: token soups of non-matching literals (suffixed ints, hex ending in B<digits>, floats, strings, chars, byte strings, identifiers U256/B8) nested in groups, metamorphic oracle uint!{E} == E in value (Debug) and type. Non-trivial: literal wider than one limb, or value in {2^bits-1, 2^bits, 2^bits+1}, or containing '_' / leading zeros, or rejected by exactly one digit; distinct by literal text.",
         assumptions: vec![
             "rustc accept/reject and JSON diagnostics are trusted; num-bigint for the literal model",
             "only token shapes that reach the macro are generated (no 0b2 / 0o8 / decimal digits followed by e or E, which the lexer itself rejects or reads as floats)",
